@@ -301,10 +301,8 @@ where
         reader.read_exact(&mut buf[..])?;
         let mut bv = Self::from_bytes(&buf[..], endianness)
             .map_err(|e| std::io::Error::new(std::io::ErrorKind::InvalidData, e))?;
-        if let Some(l) = bv.data.last_mut() {
-            *l &= I::mask(length.wrapping_sub(1) % Self::BIT_UNIT + 1);
-        }
-        bv.length = length;
+        // Drop the surplus bits of the most significant byte.
+        bv.resize(length, Bit::Zero);
         Ok(bv)
     }
 
